@@ -82,6 +82,9 @@ def run(chk):
         ocfg = opt_configs(rng, n, m)[int(rng.integers(0, 6))]
         seed = int(rng.integers(0, 1000))
         nsens = None if rng.random() < 0.3 else int(rng.integers(1, n + 1))
+        if nsens is not None and rng.random() < 0.12:
+            nsens = n + int(rng.integers(1, 4))        # more sensors than there are: to be rejected - if accepted, the count clause judges it
+            chk.count("sspor:n_sensors-beyond-features")
         case = {"level": "SSPOR", "X": X.tolist(), "matrix_kind": kind, "basis": bcfg, "opt": ocfg, "seed": seed, "n_sensors": nsens}
         try:
             cfg2 = dict(ocfg)
@@ -114,6 +117,49 @@ def run(chk):
             chk.violation("impl", "sspor-selection-invalid", f"selected {sel} with n_sensors={nsv}", {**case, "observed": sel})
         exprs.append(f"case_sspor {n} {mm} {C.cnatlist(r)} {C.cnatlist(tail)} {C.cnatlist(allv)} {nsv} {C.cnatlist(sel)}")
         meta.append(("sspor", case, {"r": r, "tail": tail, "all": allv, "sel": sel, "n_sensors": nsv}))
+        # the same invariants along a short history on the same object: setters and refits on data of another width
+        if ocfg.get("kind") != "GQR":
+            hist = []
+            for _step in range(3):
+                c = int(rng.integers(0, 3))
+                if c == 0:
+                    k = int(rng.integers(1, n + 3))
+                    op = ["set_number_of_sensors", k]
+                elif c == 1:
+                    k = int(rng.integers(1, n + 3))
+                    op = ["set_n_sensors", k]
+                else:
+                    n2 = max(2, n + int(rng.integers(-3, 3)))
+                    X2 = rng.integers(-16, 17, size=(X.shape[0], n2)) / 4.0
+                    op = ["fit", X2.tolist()]
+                hist.append(op if op[0] != "fit" else ["fit", f"{X.shape[0]}x{len(op[1][0])}"])
+                try:
+                    if op[0] == "fit":
+                        if ocfg.get("kind") == "CCQR" and ocfg.get("sensor_costs") is not None and len(op[1][0]) != n:
+                            continue                      # a cost vector of the old width: rejected by design
+                        impl.quiet(model.fit, np.array(op[1]), seed=seed, quiet=True)
+                    else:
+                        getattr(model, op[0])(op[1])
+                except Exception as e:
+                    chk.count("sspor-step-rejected:" + impl.exc_class(e))
+                    continue
+                try:
+                    nn = len(model.ranked_sensors_)
+                    allh = [int(i) for i in model.all_sensors]
+                    selh = [int(i) for i in model.selected_sensors]
+                    nsh = int(model.n_sensors)
+                except Exception as e:
+                    chk.count("sspor-step-unobservable:" + impl.exc_class(e))
+                    continue
+                caseh = {**case, "then": list(hist), "last": op if op[0] != "fit" else ["fit", op[1]]}
+                chk.case(caseh)
+                chk.count("sspor_history_steps")
+                if sorted(allh) != list(range(nn)):
+                    chk.violation("impl", "sspor-ranking-not-permutation", f"after {hist}: SSPOR.all_sensors {allh} is not a permutation", {**caseh, "observed": allh})
+                if len(set(selh)) != len(selh) or any(i < 0 or i >= nn for i in selh) or len(selh) != nsh or selh != allh[:nsh]:
+                    chk.violation("impl", "sspor-selection-invalid", f"after {hist}: selected {selh} with n_sensors={nsh} (ranking {allh})", {**caseh, "observed": selh})
+                exprs.append(f"case_sspoc {nn} {nsh} {C.cnatlist(selh)}")
+                meta.append(("sspoc", caseh, {"sel": selh, "n_sensors": nsh}))
 
     # ---- SSPOC level
     from pysensors.classification import SSPOC
@@ -146,8 +192,11 @@ def run(chk):
         exprs.append(f"case_sspoc {n} {nsv} {C.cnatlist(sel)}")
         meta.append(("sspoc", case, {"sel": sel, "n_sensors": nsv}))
         # the same invariants after later updates on the same object (counts down to 0 and back, thresholds)
+        big = [1e9, float("inf"), float(np.max(np.abs(model.sensor_coef_))) * 1.5 + 1.0][int(rng.integers(0, 3))]
         for upd in ({"n_sensors": int(rng.integers(0, n + 1))}, {"n_sensors": 0}, {"threshold": float(rng.integers(0, 9)) / 8.0},
-                    {"n_sensors": np.int64(0)}, {"n_sensors": int(rng.integers(1, n + 1))}):
+                    {"n_sensors": np.int64(0)}, {"n_sensors": int(rng.integers(1, n + 1))},
+                    {"threshold": big, **({"xy": (X, y)} if rng.random() < 0.5 else {})},          # above every coefficient: nothing is selected
+                    {"n_sensors": int(rng.integers(1, n + 1))}, {"threshold": float(np.max(np.abs(model.sensor_coef_)))}):
             try:
                 impl.quiet(model.update_sensors, quiet=True, **upd)
                 sel2 = [int(i) for i in model.selected_sensors]
@@ -155,7 +204,7 @@ def run(chk):
             except Exception as e:
                 chk.count("update-rejected:" + impl.exc_class(e))
                 continue
-            case2 = {**case, "then": {k: (int(v) if k == "n_sensors" else v) for k, v in upd.items()}}
+            case2 = {**case, "then": {k: (int(v) if k == "n_sensors" else (v if k == "threshold" else "(X, y)")) for k, v in upd.items()}}
             chk.case(case2)
             if len(set(sel2)) != len(sel2) or any(i < 0 or i >= n for i in sel2) or len(sel2) != ns2:
                 chk.violation("impl", "sspoc-selection-invalid", f"after update_sensors({upd}) SSPOC selected {sel2} with n_sensors={ns2}", {**case2, "observed": sel2})
